@@ -35,3 +35,12 @@ def rescale_scale_times_length_is_one(inputs, config):
         if v is not None and abs(v * n - 1.0) < 1e-9:
             return True
     return False
+
+
+def centred_model_mean_exactly_zero(inputs, config, clause=''):
+    """the recorded C11 finding: the failing chunking is one in which a centred
+    PCA model had an exactly-zero mean when increment() was called (the
+    contract records that fact per chunking while it runs)."""
+    import re
+    m = re.match(r'(split\[[0-9, ]+\])', clause)
+    return bool(m and inputs.get('centred_model_mean_exactly_zero_before_increment/' + m.group(1)))
